@@ -61,7 +61,7 @@ var props = map[string]*propCfg{
 	"C04": {
 		Rule:        "Part 1 (exhaustive): the class table {-Inf,-fin,-0,+0,+fin,+Inf}^k is enumerated completely: 36 cells x {Add,Sub,Mul,Quo} x 6 modes x 4 magnitude variants (1-word, 3-word, 120-word finite operands; equal magnitudes so that exact zero sums occur) x {distinct variables, z=x}; 216 FMA cells x 6 modes x 4 variants over the 15 sharing patterns; 6 Sqrt cells x 6 modes x 3 sizes x {distinct, z=x}; all of it x 3 receiver states (fresh; holding the inexact result of an earlier division, i.e. a stale Below accuracy; holding a negative zero that came out of inexact arithmetic) = 27 864 cells. Expected class and sign come from the float64 hardware (x+y, x-y, x*y, x/y, math.FMA, math.Sqrt on class representatives; NaN <=> must panic with ErrNaN) with the -0-under-ToNegativeInf rule applied on top, cross-checked against the modelled rules (disagreement = inconclusive); after an ErrNaN panic the receiver must pass the representation-invariant walker. Part 2 (panic hunt): 38 groups of public operations (arithmetic incl. 100..220-word divisors with adversarial words and exact recursive divisions, Karatsuba-sized products and squares, Sqrt, all setters incl. int64-extreme exponents, raw SetBitsExp incl. precision-0 receivers, all getters and conversions, every Text/fmt format, Parse/SetString/ParseDecimal/UnmarshalText/Scan/JSON on literals and token soup in every legal base, Gob of valid values) called on valid arguments under recover(): any panic value that is not ErrNaN, an ErrNaN on a valid call, or a missing ErrNaN on an invalid one is a violation. All table cells are non-trivial; hunt cases count as distinct by construction (fresh PRNG draw per case).",
 		Assumptions: []string{"valid arguments = non-nil pointers, legal bases, words below the base, Int/Rat/Text('f') only at |exponent| <= 3 000 and Float at <= 20 000 (they materialise 10^|exp|), addend gaps capped", "a precision-0 receiver is a valid receiver for every setter including SetBitsExp"},
-		Floors:      []floor{{"table/", 27864}, {"receiver-state/1", 9000}, {"receiver-state/4", 9000}, {"invalid_operation_cells", 500}, {"hunt/Quo", 2000}, {"hunt/Parse", 2000}, {"hunt/SetBitsExp", 500}, {"hunt/SetFloat", 500}, {"hunt_ErrNaN_panics", 50}},
+		Floors:      []floor{{"table/", 27864}, {"receiver-state/1", 9000}, {"receiver-state/4", 9000}, {"invalid_operation_cells", 500}, {"receivers_valid_after_ErrNaN", 500}, {"hunt/Quo", 2000}, {"hunt/Parse", 2000}, {"hunt/SetBitsExp", 500}, {"hunt/SetFloat", 500}, {"hunt_ErrNaN_panics", 50}},
 		LevelText:   "Exhaustive enumeration of the finite class table against the float64 hardware plus a recover()-instrumented hunt over every public entry point with operand sizes that reach the deep multi-word paths.",
 		Technique:   "runtime monitoring: exhaustive class table vs float64 hardware reference; panic classifier (recover) over hostile workloads",
 		DesignRef:   "DESIGN.md §4 C04",
@@ -156,7 +156,7 @@ var props = map[string]*propCfg{
 	"C13": {
 		Rule:        "Differential (55%, no model): every finite float64 has a finite exact decimal expansion; x = that expansion as a Decimal in ToNearestEven. Text/Append(x, f, prec) must equal strconv.FormatFloat(v, f, prec, 64) for f in e E f g G and prec 0..45 (prec -1 only when strconv's shortest form is the exact expansion), and fmt.Sprintf(verb, x) must equal fmt.Sprintf(verb, v) for verbs e E f F g G v x every subset of the flags '+', ' ', '-', '0' x width 0..30 x precision 0..20 or absent, incl. +-0, +-Inf, values at the %g thresholds and 9.99->10.0 carries. Model (45%): arbitrary Decimals (1..200 digits, digit strings aimed at the requested rounding position incl. positions at or above the leading digit, six modes, zeros, infinities): Text(f, prec) for f in e E f g G and prec -1..40 must equal RoundToPlace(x, position, x.Mode()) laid out by a port of strconv's %e/%f/%g rules, itself cross-checked against strconv on every differential case; 'p' and 'b' layouts directly; String() = Text('g', 10). x unchanged. Non-trivial = finite values.",
 		Assumptions: []string{"excluded because they are not what the statement names: the '#' flag; '+'/' ' combined with %v (fmt turns them into plusV/spaceV for built-in floats, which a Formatter cannot observe); precision-less %g/%G/%v unless the float's shortest form is its exact expansion", "'f' is exercised at |exponent| <= 3 000"},
-		Floors:      []floor{{"strconv/", 50000}, {"fmt/", 50000}, {"model/f/position-at-or-above-leading-digit", 1500}, {"model/e/aimed-at-position", 3000}, {"model/g/aimed-at-position", 3000}, {"model/p/", 8000}, {"model/b/", 8000}, {"mode/ToNegativeInf", 10000}},
+		Floors:      []floor{{"strconv/", 50000}, {"fmt/", 50000}, {"model/f/position-at-or-above-leading-digit", 1500}, {"model/e/aimed-at-position", 3000}, {"model/g/aimed-at-position", 3000}, {"model/p/", 8000}, {"model/b/", 8000}, {"fmt_model_cases", 10000}, {"mode/ToNegativeInf", 10000}},
 		LevelText:   "Runtime differential monitoring of formatting against strconv and fmt themselves on float64-representable values, plus a strconv-validated layout model for arbitrary Decimals in all six modes.",
 		Technique:   "runtime differential monitoring vs strconv/fmt; strconv-validated layout model + exact rounding oracle",
 		DesignRef:   "DESIGN.md §4 C13",
